@@ -4,6 +4,7 @@ import (
 	"bytes"
 	"fmt"
 	"math"
+	"sort"
 	"strings"
 
 	"github.com/parquet-go/parquet-go"
@@ -106,6 +107,11 @@ var c07Paths = []string{
 	// WriteRowGroup sizes the filter ahead of time; the dictionary then overflows in the middle of the row group
 	"rowgroup(buffer)+dict-fallback",
 	"rowgroup(file,recode)+dict-fallback",
+	// deferred filters of several row groups (several filters wait for Close)
+	"write+deferred+maxrows2",
+	// WriteRowGroup of a merge of 2-3 sorted files with disjoint key ranges (the
+	// segments are packed into one output row group, page after page)
+	"rowgroup(merge,packed)+smallpages",
 }
 
 var c07Reps = []string{"required", "optional", "repeated"}
@@ -207,6 +213,53 @@ func c07Run(x *engine.X) {
 		data, ok = write(append(opts, parquet.MaxRowsPerRowGroup(2)), rowsFill)
 	case "write+deferred":
 		data, ok = write(append(opts, parquet.DeferBloomFiltersWithBuffers(parquet.NewBufferPool())), rowsFill)
+	case "write+deferred+maxrows2":
+		data, ok = write(append(opts, parquet.DeferBloomFiltersWithBuffers(parquet.NewBufferPool()), parquet.MaxRowsPerRowGroup(2)), rowsFill)
+	case "rowgroup(merge,packed)+smallpages":
+		if rep == "repeated" {
+			x.Outcome("n/a")
+			return
+		}
+		typ := t.node().Type()
+		var vals []parquet.Value
+		for _, r := range rows {
+			if !r[0].IsNull() {
+				vals = append(vals, r[0])
+			}
+		}
+		sort.SliceStable(vals, func(i, j int) bool { return typ.Compare(vals[i], vals[j]) < 0 })
+		rows = rows[:0:0]
+		for _, v := range vals {
+			rows = append(rows, parquet.Row{v})
+		}
+		k := 2
+		if len(rows) >= 6 {
+			k = 3
+		}
+		sorting := parquet.SortingColumns(parquet.Ascending("v"))
+		var rgs []parquet.RowGroup
+		for c := 0; c < k; c++ {
+			part := rows[c*len(rows)/k : (c+1)*len(rows)/k]
+			if len(part) == 0 {
+				continue
+			}
+			src, ok1 := write(append(append([]parquet.WriterOption{}, opts...), parquet.SortingWriterConfig(sorting)), func(w *parquet.Writer) error { _, err := w.WriteRows(part); return err })
+			if !ok1 {
+				return
+			}
+			sf, err := parquet.OpenFile(bytes.NewReader(src), int64(len(src)))
+			if err != nil {
+				x.Failf("open-error", shape, "%v", err)
+				return
+			}
+			rgs = append(rgs, sf.RowGroups()...)
+		}
+		m, err := parquet.MergeRowGroups(rgs, parquet.SortingRowGroupConfig(sorting))
+		if err != nil {
+			x.Failf("write-error", shape, "MergeRowGroups: %v", err)
+			return
+		}
+		data, ok = write(append(append([]parquet.WriterOption{}, opts...), parquet.PageBufferSize(16)), func(w *parquet.Writer) error { _, err := w.WriteRowGroup(m); return err })
 	case "write+gzipfilter":
 		data, ok = write(append(opts, parquet.BloomFilterCompression(&parquet.Gzip)), rowsFill)
 	case "write+v1":
@@ -346,7 +399,7 @@ func init() {
 	Register(&engine.Prop{
 		ID:    "C07",
 		Level: "exploration",
-		Rule: "14 physical/fixed-length types (boolean, int32, int64, int96, float, double, byte array, flba 1/3/4/8/12/16/17) x {required, optional, repeated} x 14 build paths (incremental, dictionary, dictionary->plain fallback, small pages, several row groups, deferred, gzip-compressed, v1, WriteRowGroup of buffer / file copy / file re-encode / source without filter) x value sets {all sequences of <=3 boundary values, n distinct values around 128/256, few values repeated} x bits per value {10,1}; every non-null value of every row group is probed through ColumnChunk.BloomFilter().Check and through spec hashing of the raw bitset (pqref); " +
+		Rule: "14 physical/fixed-length types (boolean, int32, int64, int96, float, double, byte array, flba 1/3/4/8/12/16/17) x {required, optional, repeated} x 16 build paths (incremental, dictionary, dictionary->plain fallback, small pages, several row groups, deferred, gzip-compressed, v1, WriteRowGroup of buffer / file copy / file re-encode / source without filter, deferred filters of several row groups, WriteRowGroup of a merge of 2-3 sorted files with disjoint ranges packed into one row group over small pages) x value sets {all sequences of <=3 boundary values, n distinct values around 128/256, few values repeated} x bits per value {10,1}; every non-null value of every row group is probed through ColumnChunk.BloomFilter().Check and through spec hashing of the raw bitset (pqref); " +
 			"non-trivial = >=2 values",
 		Assumptions: []string{"values probed are the Values read back from the row group (C01 establishes they equal what was written)"},
 		Bound:       func(string) int { return 0 },
